@@ -1,5 +1,7 @@
-import SaoVerif.Generated.Skeleton
-import SaoVerif.Spec.SkeletonExpected
+import SaoVerif.Skeleton.x_node_keeper_hooks_go
+import SaoVerif.Skeleton.app_app_go
+import SaoVerif.Skeleton.x_node_keeper_super_go
+import SaoVerif.Skeleton.x_sao_keeper_keeper_go
 /-!
 # C03 — the decision logic of the anchor files is the one that was modelled
 
@@ -7,9 +9,10 @@ The extractor (harness/cmd/extract) regenerates, on every run and from the tree 
 function: its branching constructs in source order, each guard with its condition and with how its branch ends (`return <err>`,
 `continue`, `panic`, …). The hand-written model mirrors exactly these decisions (its `…Pre` / `…Guards` functions are the
 guards of the handlers, in their order). This theorem says that for the files the property is anchored in
-(x/node/keeper/hooks.go, app/app.go, x/node/keeper/super.go, x/sao/keeper/keeper.go) the regenerated skeletons equal the ones the model was written against. A change of a guard, of its
-order, or a new or removed branch breaks it: the correspondence then has to be re-established (the check searches the
-histories for a failing input and reports the violation either way).
+(x/node/keeper/hooks.go, app/app.go, x/node/keeper/super.go, x/sao/keeper/keeper.go) the regenerated skeletons equal the ones the model was written against
+(one kernel-evaluated equality per source file, `SaoVerif/Skeleton/<file>.lean`). A change of a guard, of its order, or a new or
+removed branch breaks it: the correspondence then has to be re-established (the check searches the histories for a failing
+input and reports the violation either way).
 -/
 namespace SaoVerif
 
@@ -22,6 +25,6 @@ theorem C03_decision_skeleton_as_modelled :
      Expected.Skel.app_app_go,
      Expected.Skel.x_node_keeper_super_go,
      Expected.Skel.x_sao_keeper_keeper_go] := by
-  decide +kernel
+  rw [skel_x_node_keeper_hooks_go, skel_app_app_go, skel_x_node_keeper_super_go, skel_x_sao_keeper_keeper_go]
 
 end SaoVerif
